@@ -20,12 +20,14 @@ import random
 
 from vlib import core, tlc
 
-INVARIANTS = ['C19_Jail', 'C19_StillServes', 'StaticConforms', 'RefJail', 'C19_NoCommandForStrangers', 'C19_HookFailClosed']
+INVARIANTS = ['C19_Jail', 'C19_StillServes', 'StaticConforms', 'RefJail', 'C19_NoCommandForStrangers', 'C19_HookFailClosed', 'AccessConforms']
+SITE_HOOKS = ['site_bool', 'site_none', 'site_zero', 'site_estr', 'site_elist']  # DOMAIN FrontEnd!Form
 CHUNK = 400
 
 
-def consts(maxsegs, fulllead=None, pinned=False):
+def consts(maxsegs, fulllead=None, pinned=False, site_hooks=SITE_HOOKS):
     return {
+        'SiteHooks': tlc.tla_set(site_hooks),
         'MaxSegs': str(maxsegs),
         'FullLeadSegs': str(maxsegs if fulllead is None else fulllead),
         'Pinned': 'TRUE' if pinned else 'FALSE',
@@ -97,6 +99,8 @@ def signature(clause, step):
         return 'static request answered with ' + (','.join(got) or 'nothing')
     if clause.endswith('HookFailClosed'):
         return f'{"/".join(a["e"])} handler ran although the access hook failed'
+    if a['hook'].startswith('site_'):
+        return f'{"/".join(a["e"])} handler ran for a caller without certificate although the site hook answered {a.get("ans")}'
     return f'{"/".join(a["e"])} handler ran for a caller without certificate'
 
 
@@ -170,7 +174,8 @@ def run(pid, tier, seed, replay=None):
         res = chk.mc('mc_pinned', 'FrontEnd_MC.tla', dict(spec='Spec', constants=consts(2, pinned=True), invariants=['C19_Jail']), workers=4, expect_ok=False)
         chk.extra['pinned_model'] = {'violates': res.violated or 'nothing', 'note': 'transcription of _static as in the pinned commit; a counterexample of the model is not a verdict'}
     tags = count_tags(cases)
-    for need in ('cases_static', 'cases_access', 'escapes', 'names_outside_file', 'plain_hit', 'stranger_command', 'hook_fails', 'expected_to_run'):
+    for need in ('cases_static', 'cases_access', 'escapes', 'names_outside_file', 'plain_hit', 'stranger_command', 'hook_fails', 'expected_to_run',
+                 'hook_says_no', 'hook_no_not_False', 'hook_yes_not_True'):
         if not tags[need]:
             raise core.Machinery(f'vacuous run: no case with "{need}"')
     # 2+3
@@ -187,10 +192,12 @@ def run(pid, tier, seed, replay=None):
         raise core.Machinery('vacuous run: no handler ever ran or no file was ever served (stubs or tree broken)')
     chk.assumptions = [
         'bounded domain: the file tree of FrontEnd.tla (2 roots, 3 outside files, 6 links), request paths of <= MaxSegs segments '
-        'over 9 segment values, 0-2 leading slashes, optional query; every registered endpoint x 6 methods x 2 x 3 x 5 situations',
+        'over 9 segment values, 0-2 leading slashes, optional query; every registered endpoint x 6 methods x 2 x 3 x (5 + site hooks) situations',
         'request.uri reaches _static undecoded (checked through twisted.web.server.Site on an in-memory transport)',
         'endpoint handlers are recording stubs; "certificates configured" = dawgie.security._certs non-empty (a real self-signed certificate)',
-        'an access-hook override that itself grants access to strangers is outside the property (only the built-in hook and failing hooks are enumerated)',
+        'an access-hook override that itself grants commands to strangers is outside the property: enumerated are the built-in hook, failing hooks '
+        'and site hooks of the most liberal policy inside the property (everything but commands for strangers) that say yes with True / 1 / "yes" '
+        'and no with False / None / 0 / "" / [] (the value returned in each situation is chosen by TLC, FrontEnd!Answer); not truthy means no',
     ]
     return chk.finish(
         'cases = every initial state of FrontEnd_Gen (all static requests of the bound and all access situations over the endpoints '
